@@ -43,9 +43,11 @@ XAnswer ==
 \* a further Do on the request answered last: must have no effect at all
 XAgain ==
   /\ "again" \in Features
-  /\ Len(h) < MaxSteps /\ Len(h) > 0 /\ h[Len(h)].op = "answer"
+  /\ Len(h) < MaxSteps /\ Len(h) > 0 /\ h[Len(h)].op \in {"answer", "again"}
+  \* up to three further calls on the same request
+  /\ (Len(h) > 3 => ~(h[Len(h)].op = "again" /\ h[Len(h) - 1].op = "again" /\ h[Len(h) - 2].op = "again"))
   /\ \E pl \in Payloads(s.p, Node(s.p, h[Len(h)].node)) :
-        /\ pl # h[Len(h)].vars
+        /\ (h[Len(h)].op = "answer" => pl # h[Len(h)].vars)
         /\ h' = Append(h, [op |-> "again", node |-> h[Len(h)].node, occ |-> h[Len(h)].occ, vars |-> pl,
                            kind |-> "", n |-> 0, cands |-> <<>>, evs |-> <<>>, pre |-> Cnt(s)])
   /\ UNCHANGED s
